@@ -29,7 +29,7 @@ def steps_of(seqs):
     """flatten to (bulk, prev listing, stmt) steps"""
     out = []
     for s in seqs:
-        prev = {}
+        prev = s.get("prev") or {}
         for i, st in enumerate(s["stmts"]):
             out.append({"seq": s["id"], "idx": i, "bulk": s["bulk"], "prev": prev, "stmt": st})
             prev = st["obs"]["after"]
@@ -77,8 +77,15 @@ def nontrivial(c):
 def run(ctx):
     ctx.add_obligations(vcheck.coq_props("Exec", "C04"))
     ctx.cov["checker_cmd"] = "coqc -Q coq/Exec BWExec coq/Exec/Props/C04.v; work/bin/h_exec -seed S -n N | model evaluated by vm_compute (coq/Exec/Corr.v step_agrees)"
-    n = 3000 if ctx.tier == "thorough" else 220
+    n = 3000 if ctx.tier == "thorough" else 180
     seqs = hexec(["-seed", str(ctx.seed), "-n", str(n)])
+    # exhaustive small scope: every sequence of at most 2 (quick) / 3 (thorough) statements of the fixed 12-statement pool
+    pool = hexec(["-mode", "pool", "-len", "3" if ctx.tier == "thorough" else "2"])
+    for q in pool:
+        q["id"] += 1000000
+    ctx.cov["pool_sequences"] = len(pool)
+    ctx.cov["exhaustive"] = "all sequences of <= %d statements from the 12-statement pool (harness/internal/execgen Pool)" % (3 if ctx.tier == "thorough" else 2)
+    seqs += pool
     cases = steps_of(seqs)
     classes = collections.Counter()
     for c in cases:
